@@ -195,6 +195,18 @@ func keyRecordJSON(k *rKey, idPrefix string) map[string]interface{} {
 		m["foo"] = 1
 	case "publicKeyMultibase":
 		m["publicKeyMultibase"] = "z6MkhaXgBZDvotDkL5257faiztiGiC2QtKLGpbnnEGta2doK"
+	case "foo_null":
+		m["foo"] = nil
+	case "controller_null":
+		m["controller"] = nil
+	case "other_material_null":
+		if _, has := m["publicKeyJwk"]; has {
+			m["publicKeyBase58"] = nil
+		} else {
+			m["publicKeyJwk"] = nil
+		}
+	case "purposes_null":
+		m["purposes"] = nil
 	default:
 		panic("harness: key extra " + k.Extra)
 	}
@@ -571,7 +583,7 @@ var allKeyTypes = []string{"Bls12381G2Key2020", "JsonWebKey2020", "EcdsaSecp256k
 func randomRule(r *rand.Rand) rCase {
 	switch r.Intn(10) {
 	case 0, 1, 2, 3:
-		k := rKey{ID: randomID(r), Extra: pickS(r, "none", 0.85, "controller", "foo", "publicKeyMultibase")}
+		k := rKey{ID: randomID(r), Extra: pickS(r, "none", 0.85, "controller", "foo", "publicKeyMultibase", "foo_null", "controller_null", "other_material_null", "purposes_null")}
 		k.Type = pickS(r, allKeyTypes[r.Intn(len(allKeyTypes))], 0.9, "Unknown2099", "missing", "empty", "number", "null")
 		k.Material = pickS(r, "jwk", 0.6, "b58", "b58", "both", "none")
 		k.Jwk = pickS(r, "ec", 0.5, "okp", "rsa", "nokty", "nocrv", "nox", "rsa_non", "rsa_noe", "notobject")
